@@ -2,16 +2,17 @@ import FranzVerif.Model.C15
 /-! # C16: the tag-count loop as the code runs it (step counting)
 
 `Model.C15.dec` ends a decode at the first failed read.  The Go reader does not: a failed read sets `bad`, empties `Src`, and the
-caller goes on; `kmsg.internalReadTags` / `ReadTags` / `SkipTags` in particular run
+caller goes on.  `kmsg.internalReadTags` / `ReadTags` / `SkipTags` run (since /repo 994d56c "tag readers stop once the reader has failed")
 
-    for num := b.Uvarint(); num > 0; num-- { key, size := b.Uvarint(), b.Uvarint(); t.Set(key, b.Span(int(size))) }
+    for num := b.Uvarint(); num > 0 && b.Ok(); num-- { key, size := b.Uvarint(), b.Uvarint(); t.Set(key, b.Span(int(size))) }
 
-with `num` taken from the input and not compared with the bytes that remain.  This file transcribes `kbin.Reader` with its `bad`
-flag and that loop with an explicit step counter, so that "the number of loop iterations is bounded by the input length" can be
-stated (it is false: Props/C16 `tag_loop_steps_unbounded`) and so that the early exit of `Model.C15.readRawTags` is justified by
-lemmas (`loop_agrees_ok`, `loop_agrees_err`: same tags on success, an invalidated reader exactly when the model says `.err`).
+with `num` taken from the input.  This file transcribes `kbin.Reader` with its `bad` flag and that loop with an explicit step
+counter, so that "the number of loop iterations is bounded by the input length" is a theorem (Props/C16 `tag_loop_steps_linear`;
+before 994d56c the loop had no `b.Ok()` test and ran `num` ≤ 2^32−1 iterations on 5 input bytes) and so that the early exit of
+`Model.C15.readRawTags` is justified by lemmas (`early_exit_justified`: same tags on success, an invalidated reader exactly when the
+model says `.err`).
 
--- models: pkg/kbin/primitives.go:Reader.Uvarint Reader.Span
+-- models: pkg/kbin/primitives.go:Reader.Uvarint Reader.Span Reader.Ok
 -- models: pkg/kmsg/api.go:internalReadTags ReadTags SkipTags Tags.Set
 -/
 namespace Model.C16
@@ -33,10 +34,11 @@ def Reader.span (b : Reader) (l : Int) : Bytes × Reader :=
   if (b.src.length : Int) < l ∨ l < 0 then ([], { src := [], bad := true })
   else (b.src.take l.toNat, { b with src := b.src.drop l.toNat })
 
-/-- the loop body of `internalReadTags`, `num` iterations; `steps` counts iterations. -/
+/-- the loop of `internalReadTags`: at most `num` iterations, each guarded by `b.Ok()`; `steps` counts iterations. -/
 def tagLoop : Nat → Reader → List (Nat × Bytes) → Nat → List (Nat × Bytes) × Reader × Nat
   | 0, b, t, steps => (t, b, steps)
   | n+1, b, t, steps =>
+    if b.bad then (t, b, steps) else      -- `num > 0 && b.Ok()`
     let (key, b1) := b.uvarint
     let (size, b2) := b1.uvarint
     let (v, b3) := b2.span size
